@@ -243,10 +243,12 @@ impl Scenario for ParamFile {
     }
     fn execute(&self, plan: &PfPlan, ctx: &mut Ctx) -> Result<(), Violation> {
         let dir = Scratch::new("in");
-        // missing file first
+        // missing file first, then a directory that does not exist at all
         ctx.ev("reload-missing", 0);
         ctx.count("fault:missing-file");
         check_reload(ctx, "missing file", &reload_inproc(&dir.0), None)?;
+        ctx.count("fault:missing-directory");
+        check_reload(ctx, "missing directory", &reload_inproc(&dir.0.join("no-such-directory")), None)?;
         let mut last: Option<(Vec<u8>, &PfParams)> = None;
         for p in &plan.dumps {
             let e = reference_bytes(p);
